@@ -40,6 +40,54 @@ def _parse_call(t):
     return None, None, None, t
 
 
+def _linearisable_queries(hist):
+    """search for a total order of the completed calls, consistent with real time, in which isRecognized / isCompleted give
+    the observed answers under the key life cycle (requested -> pending; set / fulfil-all -> completed; finished -> gone)"""
+    n = len(hist)
+    if n > 40:
+        return True
+    seen = set()
+
+    def go(done, pending, used):
+        if len(done) == n:
+            return True
+        kk = (done, pending, used)
+        if kk in seen:
+            return False
+        seen.add(kk)
+        rest = [i for i in range(n) if i not in done]
+        first_end = min(hist[i]["end"] for i in rest)
+        for i in rest:
+            h = hist[i]
+            if h["start"] > first_end:
+                continue
+            p, u = set(pending), set(used)
+            k, key = h["kind"], h["key"]
+            ok = True
+            if k == "get":
+                p.add(key)
+            elif k == "set":
+                if key in p:
+                    p.discard(key)
+                    u.add(key)
+            elif k == "ful":
+                u |= p
+                p = set()
+            elif k == "fin":
+                u.discard(key)
+            elif k == "dtor":
+                p, u = set(), set()
+            elif k == "rec":
+                ok = h["got"] == ("1" if (key in p or key in u) else "0")
+            elif k == "comp":
+                ok = h["got"] == ("1" if key in u else "0")
+            if ok and go(done | frozenset([i]), frozenset(p), frozenset(u)):
+                return True
+        return False
+
+    return go(frozenset(), frozenset(), frozenset())
+
+
 def oracle_dobj(run):
     """C18 on the raw trace, independent of the Lean model's pcs.
 
@@ -66,6 +114,13 @@ def oracle_dobj(run):
     results = {}     # section index -> result tokens
     gots = {}        # id -> list of (line index, text)
     dtor_done = set()
+    heldset = {}     # tid -> names of the mutexes it holds
+    mholder = {}     # mutex name -> tid holding it
+    overlap = False  # critical sections (of different mutexes) of two calls overlapped
+    several = False  # some call consisted of several critical sections
+    started = {}     # tid -> line of its current call
+    hist = []        # completed calls with their real-time interval and (for the queries) result
+    lockset = {}     # map -> mutexes held at EVERY access so far
     for i, (tid, t) in enumerate(events(run)):
         k = t[0]
         if k == "call":
@@ -75,40 +130,70 @@ def oracle_dobj(run):
             OPDIST[t[1] + (t[4] if kind == "set" else "")] += 1
             cur[tid] = (kind, key, arg)
             phase[tid] = "called"
-        elif k == "mlk" and t[1] == "promiseLock":
-            if holder is not None:
-                return "promiseLock granted to %d while %d holds it" % (tid, holder)
-            holder = tid
-            if phase.get(tid) != "called":
-                return "thread %d locked promiseLock %s" % (tid, "outside a call" if tid not in phase else "twice in one call")
-            phase[tid] = "locked"
-            kind, key, arg = cur[tid]
-            sec_of[tid] = len(sections)
-            sections.append((i, tid, kind, key, arg))
-        elif k == "mul" and t[1] == "promiseLock":
-            if holder != tid:
-                return "thread %d released promiseLock without holding it" % tid
-            holder = None
-            phase[tid] = "unlocked"
-            if cur[tid][0] == "dtor":
-                dtor_done.add(tid)
+            started[tid] = i
+        elif k in ("mlk", "mtl", "mtf"):
+            # any mutex, whatever it is called (the harness names the one it knows `promiseLock`; a rewrite may add more)
+            if k != "mlk" and t[2] != "1":
+                continue
+            name = t[1]
+            if mholder.get(name) is not None:
+                return "%s granted to %d while %d holds it" % (name, tid, mholder[name])
+            mholder[name] = tid
+            heldset.setdefault(tid, set()).add(name)
+            if tid not in phase:
+                return "thread %d locked %s outside a call" % (tid, name)
+            if phase[tid] == "called":
+                phase[tid] = "locked"
+                kind, key, arg = cur[tid]
+                if any(p == "locked" for u, p in phase.items() if u != tid):
+                    overlap = True     # critical sections of different mutexes overlap: "order of the sections" is not an order
+                sec_of[tid] = len(sections)
+                sections.append((i, tid, kind, key, arg))
+            elif phase[tid] == "unlocked":
+                several = True         # a call made of several critical sections: judged by the futures, not by the reference
+                phase[tid] = "locked"
+        elif k == "mul":
+            name = t[1]
+            if mholder.get(name) != tid:
+                return "thread %d released %s without holding it" % (tid, name)
+            mholder[name] = None
+            heldset.setdefault(tid, set()).discard(name)
+            if not heldset[tid]:
+                phase[tid] = "unlocked"
+                if cur[tid][0] == "dtor":
+                    dtor_done.add(tid)
         elif k == "pset":
-            if holder != tid:
-                return "thread %d satisfied a promise (value %s) without holding promiseLock" % (tid, t[2])
+            if not heldset.get(tid):
+                return "thread %d satisfied a promise (value %s) without holding any mutex" % (tid, t[2])
             psets.setdefault(sec_of[tid], []).append(int(t[2]))
         elif k in ("pld", "pst"):
-            if t[1].split("+")[0] in MAPS and holder != tid and tid not in dtor_done:
-                return "thread %d accessed map %s without holding promiseLock" % (tid, t[1].split("+")[0])
+            m = t[1].split("+")[0]
+            if m in MAPS and tid not in dtor_done:
+                # lockset discipline, whatever the mutexes are called and however many there are: every access to one map
+                # must be made under at least one common mutex (otherwise two accesses can overlap: a data race)
+                hs = frozenset(heldset.get(tid, ()))
+                if not hs:
+                    return "thread %d accessed map %s without holding any mutex" % (tid, m)
+                prev = lockset.get(m)
+                lockset[m] = hs if prev is None else (prev & hs)
+                if not lockset[m]:
+                    return ("map %s is not consistently protected: thread %d accesses it holding %s, earlier accesses held %s"
+                            % (m, tid, sorted(hs), sorted(prev)))
         elif k == "ret":
             if phase.get(tid) != "unlocked":
                 return "thread %d returned from %s %s" % (tid, t[1], "without a critical section" if phase.get(tid) == "called"
-                                                          else "holding promiseLock")
+                                                          else "holding %s" % sorted(heldset.get(tid, ())))
             results[sec_of[tid]] = t[-1]
+            kind, key, arg = cur[tid]
+            hist.append(dict(kind=kind, key=key, start=started[tid], end=i, got=t[-1] if kind in ("rec", "comp") else None))
             phase.pop(tid, None)
         elif k == "exc":
             return "exception escaped the API: %s" % " ".join(t[1:])
         elif k == "got":
             gots.setdefault(int(t[1]), []).append((i, t[2]))
+    if (overlap or several) and not _linearisable_queries(hist):
+        return ("no order of the completed calls (consistent with real time) explains the results of isRecognized / isCompleted: "
+                "the life cycle of a key was observed in an impossible state")
     # reference dict model in critical-section order
     pending, used, handed = {}, {}, {}
     later = []       # bookkeeping discrepancies, reported only if the futures themselves look right
@@ -137,7 +222,7 @@ def oracle_dobj(run):
         elif kind == "fin":
             used.pop(key, None)
         keytxt = "" if key is None else " " + key[0] + ":" + key[1]
-        if si in results and results[si] != res:
+        if si in results and results[si] != res and not overlap and not several:
             return "%s%s by thread %d returned %s, reference model says %s" % (kind, keytxt, tid, results[si], res)
         if sorted(psets.get(si, [])) != sorted(want_sets):
             later.append("%s%s by thread %d performed set_value %s, expected %s" % (kind, keytxt, tid, psets.get(si, []), want_sets))
